@@ -3,13 +3,14 @@
 Every random choice derives from one `random.Random(seed)` per work unit, so a run replays exactly.
 A request is one text line: `<op> <signed 0|1> <nbits> <frac> <args...>`.
 """
-import random
+import random, os
+VERIF = os.environ.get('SFX_VERIF') or os.path.dirname(os.path.dirname(os.path.abspath(__file__)))
 
 WIDTHS = [8, 16, 32, 64, 128]
 
 def quick_fracs():
     out = {}
-    for line in open('/verif/harness/fracs_quick.txt'):
+    for line in open(VERIF + '/harness/fracs_quick.txt'):
         line = line.strip()
         if not line or line.startswith('#'):
             continue
@@ -190,7 +191,7 @@ def crit(s, n, f):
 def corpus(prop):
     """minimised past failures / known-finding witnesses; always run first"""
     import os
-    p = f'/verif/corpus/{prop}.req'
+    p = f'{VERIF}/corpus/{prop}.req'
     if not os.path.exists(p):
         return []
     return [l.strip() for l in open(p) if l.strip() and not l.startswith('#')]
